@@ -8,7 +8,7 @@ scns=[s for s in scns if 'error' not in s]
 scns.sort(key=lambda s: len(s['lines']))
 for s in scns:
     seen=set()
-    for prop,what,line in s['violations']:
+    for prop,what,line,_ in s['violations']:
         allv[prop]+=1
         if prop not in seen and shown[prop]<2:
             seen.add(prop); shown[prop]+=1
